@@ -1348,30 +1348,7 @@ fn exec_order(run: &str, src: &str) -> String {
         .max_repack(rustic_core::LimitOption::Unlimited)
         .max_unused(rustic_core::LimitOption::Size(bytesize::ByteSize(0)))
         .instant_delete(run.seed % 2 == 0);
-    // 2. the planner alone, index files in several orders
-    let ids: Vec<Id> = shape.iter().map(|x| x.0).collect();
-    let mut orders: Vec<(&str, Vec<Id>)> = vec![];
-    let rest = |a: Id, b: Id| ids.iter().copied().filter(move |i| *i != a && *i != b);
-    orders.push(("del-first", [del_file, reg_file].into_iter().chain(rest(del_file, reg_file)).collect()));
-    orders.push(("reg-first", [reg_file, del_file].into_iter().chain(rest(del_file, reg_file)).collect()));
-    let mut shuffled = ids.clone();
-    let mut r = Rng::new(run.seed ^ 0x5AFF);
-    for i in (1..shuffled.len()).rev() {
-        shuffled.swap(i, r.below(i as u64 + 1) as usize);
-    }
-    orders.push(("shuffled", shuffled));
-    let mut first_plan: Option<Vec<String>> = None;
-    for (name, order) in &orders {
-        match plan_by_hook(&h, &snap, order, &popts) {
-            Err(e) => return format!("oracle-fail:order:planner:{name}:{e}"),
-            Ok(p) => match &first_plan {
-                None => first_plan = Some(p),
-                Some(p0) if *p0 != p => return format!("oracle-fail:order:planner:{name}:decisions-differ"),
-                Some(_) => {}
-            },
-        }
-    }
-    // 3. the real prune, either file arriving last
+    // 2. the real prune, either file arriving last
     let mut first: Option<BTreeSet<(u8, Id)>> = None;
     for (name, late) in [("del-first", reg_file), ("reg-first", del_file)] {
         let store = h.be.inner.store();
@@ -1407,6 +1384,29 @@ fn exec_order(run: &str, src: &str) -> String {
             None => first = Some(refs),
             Some(r0) if *r0 != refs => return format!("oracle-fail:order:{name}:referenced-blobs-differ"),
             Some(_) => {}
+        }
+    }
+    // 3. the planner alone, index files in several orders
+    let ids: Vec<Id> = shape.iter().map(|x| x.0).collect();
+    let mut orders: Vec<(&str, Vec<Id>)> = vec![];
+    let rest = |a: Id, b: Id| ids.iter().copied().filter(move |i| *i != a && *i != b);
+    orders.push(("del-first", [del_file, reg_file].into_iter().chain(rest(del_file, reg_file)).collect()));
+    orders.push(("reg-first", [reg_file, del_file].into_iter().chain(rest(del_file, reg_file)).collect()));
+    let mut shuffled = ids.clone();
+    let mut r = Rng::new(run.seed ^ 0x5AFF);
+    for i in (1..shuffled.len()).rev() {
+        shuffled.swap(i, r.below(i as u64 + 1) as usize);
+    }
+    orders.push(("shuffled", shuffled));
+    let mut first_plan: Option<Vec<String>> = None;
+    for (name, order) in &orders {
+        match plan_by_hook(&h, &snap, order, &popts) {
+            Err(e) => return format!("oracle-fail:order:planner:{name}:{e}"),
+            Ok(p) => match &first_plan {
+                None => first_plan = Some(p),
+                Some(p0) if *p0 != p => return format!("oracle-fail:order:planner:{name}:decisions-differ"),
+                Some(_) => {}
+            },
         }
     }
     let refs = first.unwrap();
